@@ -7,7 +7,11 @@ POOL5 = POOL4 + [{"extend": 0, "paths": 1}]
 
 
 def build(E, P, after_step=None):
-    pool = typed_pool(E, P.get("pool", POOL4), L=P.get("L", 1))
+    if P.get("concrete"):
+        from harness.common import concrete_pool
+        pool = concrete_pool(E, P["concrete"])
+    else:
+        pool = typed_pool(E, P.get("pool", POOL4), L=P.get("L", 1))
     defaults = P.get("defaults", ["never"])
     default = defaults[E.choose("default", len(defaults))]
     ref = Ref()
